@@ -65,7 +65,7 @@ def loops_for(jobs):
 
 
 NET = "stubs/netorder.c"
-NATIVE_MISC = dict(stubs=["stubs/native_env.c"], extra_srcs=["src/common.c"])
+NATIVE_MISC = dict(stubs=["stubs/native_env.c"])
 
 # =========================================================================== C13
 PROPS["C13"] = dict(
@@ -75,7 +75,7 @@ PROPS["C13"] = dict(
 )
 
 J(id="C13.check_mask", prop="C13", cls="width-complete", bound="loops bounded by the 8 address groups / 128 bits",
-  srcs=["modules/iauth_misc.c"], harness="harness/h_misc.c", entry="h_check_mask", stubs=[NET],
+  srcs=["src/common.c"], harness="harness/h_misc.c", entry="h_check_mask", stubs=[NET],
   enforce=["irc_check_mask"], checks=["ptr", "shift", "ovf"],
   cbmc=["--unwind", "130", "--unwinding-assertions"],
   expect=[r"irc_check_mask\.postcondition", r"irc_check_mask\.undefined-shift"],
@@ -116,3 +116,90 @@ def _set_jobs(tier, seed):
 
 
 GENERATORS.append(_set_jobs)
+
+
+J(id="C13.pton_ip4.quad.len16", prop="C13", cls="bounded", bound="every string of at most 16 bytes",
+  srcs=["src/common.c"], harness="harness/h_misc.c", entry="h_pton_ip4_quad", stubs=[NET, "stubs/printf_model.c"],
+  enforce=["irc_pton_ip4"], checks=["ptr", "ovf", "shift"],
+  cbmc=["--unwind", "19", "--unwinding-assertions"], expect=[r"irc_pton_ip4\.assigns"],
+  functions=["irc_pton_ip4"], replay=dict(stubs=["stubs/native_env.c"]), cost=3)
+
+# =========================================================================== C12
+PROPS["C12"] = dict(
+    level="proof",
+    explanation="irc_ntop o irc_pton round trip, reference-parser agreement and idempotence proved per zero-group "
+                "pattern shard with all non-zero groups symbolic (width-complete: every loop is bounded by the 8 groups / "
+                "40 text bytes and unwound with unwinding assertions)",
+    trusted=["S1 printf model for the dotted-quad branch (stubs/printf_model.c, differential-tested against libc at setup)",
+             "reference parser spec_parse_addr stands in for inet_pton (differential-tested against glibc inet_pton at setup)"],
+)
+MISC_SRCS = ["src/common.c"]
+MISC_STUBS = [NET, "stubs/printf_model.c"]
+NATIVE_MISC2 = dict(stubs=["stubs/native_env.c"])
+MISC_UNWIND = [
+    ("irc_pton", r"while \(ii < 8\) switch", 42), ("irc_pton", r"for \(; isspace", 3),
+    ("irc_pton", r"for \(part = 0; isdigit", 5), ("irc_pton", r"while \(input\[\+\+pos\] == '\*'\)", 3),
+    ("irc_pton", r"for \(jj = 0;", 9),
+    ("irc_pton_ip4", r"while \(1\) switch", 18), ("irc_pton_ip4", r"while \(input\[\+\+pos\] == '\*'\)", 3),
+    ("irc_pton_ip4", r"for \(bits = 0; isdigit", 4), ("irc_pton_ip4", r"goto out", 3),
+    ("irc_ntop", r"for \(max_start", 9), ("irc_ntop", r"for \(pos = 0, ii = 0", 9), ("irc_ntop", r"APPEND\(", 2),
+    ("strchr", r"", 41), ("ctype_init", r"token_chars\[ii\]", 32), ("ctype_init", r"hex_digits\[ii\]", 18),
+    ("vsnprintf", r"while \(\*fmt\)", 14), ("vsnprintf", r"while \(\*s\)", 41), ("vp_unum", r"for \(i = 0; i < 20", 21), ("vp_unum", r"while \(v >= p10", 10), ("vp_unum", r"for \(i = 15", 17),
+    ("h_ntop_roundtrip", r".", 41), ("spec_parse_addr", r"for \(;;\)", 42), ("spec_parse_addr", r"k < maxlen", 41),
+    ("spec_parse_addr", r"i <= maxlen", 42),
+]
+
+
+def _c12_job(zp, digits=None, v4=False, solver="kissat", core=False):
+    is4 = v4 or (zp & 0x7f) == 0x3f
+    d = ["ZP=0x%02x" % zp] + (["DIGITS=%d" % digits] if digits else []) + (["V4MAPPED"] if v4 else []) + (["C12_CORE_ONLY"] if core else [])
+    j = dict(
+        id="C12.roundtrip.zp%02x%s%s%s" % (zp, "m" if v4 else "", (".d%d" % digits) if digits else ".full", ".core" if core else ""), prop="C12",
+        cls="width-complete", bound="8 groups / 40 text bytes (code constants)",
+        srcs=MISC_SRCS, stubs=MISC_STUBS, harness="harness/h_misc.c", entry="h_ntop_roundtrip", defines=d,
+        checks=["ptr", "ovf", "shift"], solver=solver, unwind_rules=MISC_UNWIND, unwind_rules_optional=True,
+        cbmc=["--unwind", "9", "--unwinding-assertions", "--object-bits", "12"], functions=["irc_ntop", "irc_pton"],
+        replay=NATIVE_MISC2, timeout=3000, mem=14, cost=(100 if not digits else 1) * (5 if is4 else 1))
+    if is4:
+        j["remove_bodies"] = ["irc_pton_ip4"]
+        j["late_stubs"] = ["stubs/pton_ip4_contract.c"]
+        j["assumptions"] = ["in the IPv4 shards irc_pton_ip4 is replaced by its executable contract for plain canonical dotted quads "
+                            "(stubs/pton_ip4_contract.c); the real function is proved against it in C13.pton_ip4.quad.len16"]
+    else:
+        j["havoc_bodies"] = ["irc_pton_ip4"]
+        j["assumptions"] = ["in the IPv6 shards the static dotted-quad parser irc_pton_ip4 is abstracted by its frame-only contract "
+                            "(havoc of *output/*pbits, any return value; spec/misc.contracts.h) - it is only called on paths where the "
+                            "printed text contains a '.', which the solver shows infeasible; the frame is enforced in C13.pton_ip4.*"]
+    return j
+
+
+def _c12_shards():
+    out = []
+    for zp in range(256):
+        out.append((zp, False))
+        if (zp & 0x7f) == 0x1f:
+            out.append((zp, True))
+    return out
+
+
+def _c12_jobs(tier, seed):
+    import random
+    sh = _c12_shards()
+    sv = os.environ.get("C12SOLVER", "kissat")
+    if tier == "quick":
+        # boundary shards always (IPv4 forms and their IPv6 neighbours, no/one/all zero groups,
+        # leading/trailing/two-run patterns), the rest of the budget drawn by VERIF_SEED
+        fixed = [(0x00, False), (0xff, False), (0x01, False), (0x80, False), (0x7f, False), (0xfe, False),
+                 (0x1f, False), (0x1f, True), (0x9f, False), (0x9f, True), (0x3f, False), (0xbf, False),
+                 (0x0f, False), (0x8f, False), (0x2a, False), (0x41, False), (0x66, False), (0x0c, False),
+                 (0x5f, False), (0xdf, False), (0x3e, False), (0x7e, False), (0xc3, False), (0x18, False)]
+        rest = [x for x in sh if x not in fixed]
+        rnd = random.Random(seed)
+        pick = fixed + rnd.sample(rest, 40)
+        if os.environ.get("C12TEST"):
+            return [_c12_job(zp, 1 + zp % 4, v4, solver="minisat", core=True) for zp, v4 in fixed]
+        return [_c12_job(zp, None, v4, solver=sv) for zp, v4 in pick]
+    return [_c12_job(zp, None, v4, solver=sv) for zp, v4 in sh]
+
+
+GENERATORS.append(_c12_jobs)
